@@ -7,6 +7,7 @@ import itertools
 import numpy as np
 from hypothesis import strategies as st
 
+from mzverif import core
 from mzverif import gen as G
 from mzverif import lib as L
 from mzverif import model as M
@@ -14,7 +15,7 @@ from mzverif.core import Sub, call, require, scribble
 
 ID = "C13"
 LEVEL = "exploration"
-TECHNIQUE = "exhaustive over all graphs <= 3x3 (every cell, every ordered pair, all short candidate paths, every shortest path for the fork rule) + Hypothesis graphs up to 15x15 / 25x25 + grids of 64..127 cells per side + same-flags-other-shape twins; connection arrays in C / Fortran / moved-axis layout; int8 and int64 arguments, results overwritten by the caller; oracle = adjacency/BFS model built directly from the connection bits; batch edge tests with mixed orientations, stars around a cell and single edges"
+TECHNIQUE = "exhaustive over all graphs <= 3x3 (every cell, every ordered pair, all short candidate paths, every shortest path for the fork rule) + Hypothesis graphs up to 15x15 / 25x25 + grids of 64..127 cells per side + same-flags-other-shape twins; connection arrays in C / Fortran / moved-axis layout; int8 and int64 arguments, results overwritten by the caller; oracle = adjacency/BFS model built directly from the connection bits; batch edge tests with mixed orientations, stars around a cell and single edges; the same check on several cases at once, one thread each (interleavings sampled)"
 RULE = (
     "case = (connection bits[, sampled cells, candidate paths, solution, numpy seed]); per case every query family is compared with "
     "the model: nodes_connected (all ordered pairs), get_coord_neighbors, coord_degrees, gen_connected_component_from, get_nodes, "
@@ -352,6 +353,7 @@ def subs(tier: str):
         Sub("forks-exhaustive<=3x3", check, "exhaustive", cases=_exhaustive_fork_cases, exhaustive_flag=True),
         *([] if q else [Sub("exhaustive-2x4-2x5-1xN", check, "exhaustive", cases=_exhaustive_medium, exhaustive_flag=True)]),
         Sub("random", check, "hypothesis", strategy=lambda: _random_case(15 if q else 25), examples=40 if q else 2000),
+        Sub("concurrent-threads", core.threaded(check), "hypothesis", strategy=core.threaded_strategy(lambda: _random_case(8 if q else 12)), examples=4 if q else 100, ambient=False),
         Sub("generated-mazes-with-metadata", check_generated, "hypothesis", strategy=lambda: _generated(8 if q else 12), examples=40 if q else 800),
         Sub("same-flags-other-shape", check_twins, "hypothesis", strategy=_twins, examples=20 if q else 400),
         Sub("large-grids", check, "hypothesis", strategy=_big_case, examples=3 if q else 20),
